@@ -132,6 +132,9 @@ static int          inj_rc, inj_errno;
 static int          seen_fd, seen_flags, seen_calls;
 static __thread int last_flags = -1;
 
+static int try_call;        // the running scripted call is zix_file_lock(..., ZIX_FILE_LOCK_TRY)
+static int blocking_in_try; // it made a flock() request that can sleep
+
 int __wrap_flock(int fd, int flags)
 {
   last_flags = flags;
@@ -139,6 +142,9 @@ int __wrap_flock(int fd, int flags)
     seen_fd    = fd;
     seen_flags = flags;
     ++seen_calls;
+    if (try_call && !(flags & (LOCK_NB | LOCK_UN))) {
+      blocking_in_try = 1; // a request that sleeps while somebody else holds the lock, made on behalf of a TRY call
+    }
     if (inj_rc) {
       errno = inj_errno;
     }
@@ -179,10 +185,14 @@ static void case_scripted(char** tok)
   scripted   = 1;
   in_zix_call = 1;
   errno      = entry_errno;
+  try_call        = tok[1][0] == 'L' && mode == ZIX_FILE_LOCK_TRY;
+  blocking_in_try = 0;
   const ZixStatus st = (tok[1][0] == 'L') ? zix_file_lock(f, mode) : zix_file_unlock(f, mode);
   in_zix_call = 0;
   scripted   = 0;
-  printf("st=%s || calls=%d flock(%s,", status_name((int)st), seen_calls, seen_fd == fileno(f) ? "fd" : "fd?");
+  try_call   = 0;
+  printf("st=%s nb=%s || calls=%d flock(%s,", status_name((int)st), blocking_in_try ? "BAD" : "ok", seen_calls,
+         seen_fd == fileno(f) ? "fd" : "fd?");
   print_flags(seen_flags);
   fputs(")", stdout);
   if (unexpected) {
